@@ -8,6 +8,7 @@ import (
 	"context"
 	"errors"
 	"fmt"
+	"os"
 	"time"
 
 	"go.sia.tech/core/consensus"
@@ -59,6 +60,8 @@ func applicable(s script) bool {
 		return s.Kind == "form"
 	case "req-missing-parents":
 		return s.Unconf
+	case "req-underfund":
+		return !s.Unconf
 	}
 	return true
 }
@@ -133,8 +136,10 @@ func (s *recSigner) ReleaseInputs(txns []types.V2Transaction) {
 	}
 	s.calls = append(s.calls, fmt.Sprintf("RRelease %d", n))
 }
-func (s *recSigner) SignV2Inputs(txn *types.V2Transaction, toSign []int) { s.w.SignV2Inputs(txn, toSign) }
-func (s *recSigner) SignHash(h types.Hash256) types.Signature           { return s.key.SignHash(h) }
+func (s *recSigner) SignV2Inputs(txn *types.V2Transaction, toSign []int) {
+	s.w.SignV2Inputs(txn, toSign)
+}
+func (s *recSigner) SignHash(h types.Hash256) types.Signature { return s.key.SignHash(h) }
 
 type failingPool struct {
 	inner rhp4.TxPool
@@ -168,7 +173,7 @@ type outcome struct {
 	HostBal0, HostBal1        balances
 	RenterBal0, RenterBal1    balances
 
-	Log       callLog
+	Log       logData
 	M         *mitm
 	Signer    *recSigner
 	RenterErr error
@@ -211,15 +216,15 @@ func (w *world) amounts(s script, existing types.V2FileContract) (allowance, col
 		collateral = existing.HostOutput.Value.Add(existing.TotalCollateral).Add(types.Siacoins(20))
 	}
 	if s.Large || s.Fault == "req-underfund" {
-		if m := maxValue(w.H.avail()); !m.IsZero() {
-			collateral = collateral.Add(m.Mul64(3).Div64(2))
-		}
-		if m := maxValue(w.renterNode(s).avail()); !m.IsZero() && !s.Unconf {
-			allowance = m.Mul64(3).Div64(2)
+		// more than the largest output: two outputs on each side
+		collateral = collateral.Add(maxValue(w.H.avail())).Add(types.Siacoins(500))
+		if !s.Unconf {
+			allowance = maxValue(w.renterNode(s).avail()).Add(types.Siacoins(500))
 		}
 	}
 	if s.Fault == "host-no-funds" {
-		collateral = types.Siacoins(500000000)
+		b, _ := w.H.w.Balance()
+		collateral = b.Confirmed.Mul64(2).Add(types.Siacoins(1000))
 	}
 	if min := proto4.MinRenterAllowance(w.base.Prices, collateral).Add(types.Siacoins(1)); allowance.Cmp(min) < 0 {
 		allowance = min
@@ -322,6 +327,9 @@ func (w *world) run(s script) *outcome {
 		panic("host handler did not return")
 	}
 	o.Log = w.log.snapshot()
+	if os.Getenv("C16_DEBUG") != "" {
+		fmt.Fprintf(os.Stderr, "%d %s host=%v hosterr=%q rentererr=%v renter=%v\n", o.No, s, o.Log.calls, m.hostErr, o.RenterErr, signer.calls)
+	}
 	o.HostAfter, o.RenterAfter = w.H.avail(), rn.avail()
 	o.HostBal1, o.RenterBal1 = bal(w.H), bal(rn)
 	return o
